@@ -62,13 +62,25 @@ def build(uni, cls, cfg, spec, base=None):
                 s.max(uni.E["x"])
             except UnsatError:
                 pass
+        elif isinstance(k, tuple):  # several constraints in ONE add() call
+            s.add([uni.K[j] for j in k])
         else:
             s.add(uni.K[k])
     return s
 
 
 def adds_of(spec):
-    return [k for k in spec if k not in ("q", "m")]
+    out = []
+    for k in spec:
+        if isinstance(k, tuple):
+            out.extend(k)
+        elif k not in ("q", "m"):
+            out.append(k)
+    return out
+
+
+def spec_label(sp):
+    return ",".join("[" + "+".join(k) + "]" if isinstance(k, tuple) else k for k in sp)
 
 
 def conjuncts(cs):
@@ -96,7 +108,7 @@ def _case(args):
                     anc = build(uni, cls, cfg, anc_spec) if anc_spec is not None else None
                     ss = [build(uni, cls, cfg, sp, base=anc) if anc is not None else build(uni, cls, cfg, sp) for sp in specs]
                     Ms = [set(uni.models((adds_of(anc_spec) if anc_spec else []) + adds_of(sp))) for sp in specs]
-                    case = f"{cls}|{kind}|anc={anc_spec}|" + "|".join(",".join(sp) for sp in specs) + "|conds=" + ",".join(cnames)
+                    case = f"{cls}|{kind}|anc={anc_spec}|" + "|".join(spec_label(sp) for sp in specs) + "|conds=" + ",".join(cnames)
                     try:
                         if kind == "combine":
                             r = ss[0].combine(ss[1:])
@@ -130,7 +142,7 @@ def _case(args):
                     spec = item
                     s = build(uni, cls, cfg, spec)
                     M = set(uni.models(adds_of(spec)))
-                    case = f"{cls}|split|" + ",".join(spec)
+                    case = f"{cls}|split|" + spec_label(spec)
                     try:
                         before = list(s.constraints)
                         rs = s.split()
@@ -247,8 +259,23 @@ def run(tier: str) -> int:
                     work.append((anc, (a, b), cp))
         for i in range(0, len(work), 60):
             items.append(("merge3", cls, cfg, work[i : i + 60]))
-        for i in range(0, len(specs), 20):
-            items.append(("split", cls, cfg, specs[i : i + 20]))
+        # combine of three: two of the others share a variable the receiver does not have, all solved once
+        c3 = [("c", "q"), ("x<u5", "q"), ("y>u6", "q"), ("y<u2", "q"), ("y==2", "q"), ("x!=0",), ()]
+        if tier == "thorough":
+            c3 += [("x+y==5", "q"), ("y==2", "m"), ("c",)]
+        work = [(None, t, ()) for t in itertools.product(c3, repeat=3)]
+        for i in range(0, len(work), 60):
+            items.append(("combine", cls, cfg, work[i : i + 60]))
+        # split with a conjunct that bridges two groups formed by earlier conjuncts, one by one and in one add()
+        bridge = []
+        for trio in (("x<u5", "y>u6", "x+y==5"), ("x!=0", "y<u2", "y==x"), ("x==3", "y==2", "x+y==5"), ("c", "x<u5", "y>u6", "x+y==5")):
+            for perm in itertools.permutations(trio):
+                bridge.append(perm)
+                bridge.append((perm,))
+                bridge.append((*perm, "q"))
+        split_specs = specs + bridge
+        for i in range(0, len(split_specs), 20):
+            items.append(("split", cls, cfg, split_specs[i : i + 20]))
     for res in pmap(_case3_dispatch, items):
         rep.merge(res)
     rep.counts["states"] = nstates
